@@ -161,7 +161,19 @@ func c02tlsnetExec(c *h.Ctx, cs *h.Case) {
 		switch {
 		case len(tk) == 6 && tk[1] == "cfg":
 			cs.Impl = append(cs.Impl, "ok")
-		case len(tk) == 6 && tk[1] == "tlsnet":
+		case (len(tk) == 6 && tk[1] == "tlsnet") || (len(tk) == 7 && tk[1] == "tlsbyz"):
+			// c02 tlsbyz <k> <a> <type> <claimed sender> <value>: as tlsnet, but the peer is not member k's server: it holds k's
+			// key, dials by hand and announces the identity of member a
+			byzA := -1
+			if tk[1] == "tlsbyz" {
+				a, err := strconv.Atoi(tk[3])
+				if err != nil || a < 1 || a > 3 {
+					cs.Impl = append(cs.Impl, "bad-op")
+					continue
+				}
+				byzA = a
+				tk = append([]string{tk[0], tk[1], tk[2]}, tk[4:]...)
+			}
 			z, e1 := strconv.Atoi(tk[2])
 			ty, e2 := strconv.Atoi(tk[3])
 			v, e3 := strconv.Atoi(tk[5])
@@ -174,7 +186,59 @@ func c02tlsnetExec(c *h.Ctx, cs *h.Case) {
 				bad = i-10 != z // the claimed node must be the one hosted by the server whose key the connection proved
 			}
 			sentBy[v] = sent{tk[4], z, bad}
-			if err := sendVia(z, mk(tk[4], fix.Payload(ty, v))); err != nil {
+			if tk[1] == "tlsbyz" {
+				// a peer that holds the key of member z completes the handshake with it, announces the identity of member a
+				// and sends the message on that connection
+				us := *c02tnSrv[z].ServerIdentity
+				us.SetPrivate(c02tnSrv[z].ServerIdentity.GetPrivate())
+				conn, err := network.NewTLSConn(&us, c02tnSrv[0].ServerIdentity, fix.Suite)
+				if err != nil {
+					cs.Impl = append(cs.Impl, "dial-failed")
+					cs.Fail("dial-failed", err.Error())
+					return
+				}
+				ann := *c02tnSrv[byzA].ServerIdentity
+				c02tnN++
+				n := c02tnN
+				conn.Send(&ann)
+				conn.Send(mk(tk[4], fix.Payload(ty, v)))
+				conn.Send(&c02Marker{n})
+				closed := make(chan struct{})
+				go func() {
+					conn.Receive() // the receiver never writes here: returns when it closes the connection
+					close(closed)
+				}()
+				refused := false
+				dl := time.After(10 * time.Second)
+			waitByz:
+				for {
+					select {
+					case got := <-c02tnMarks:
+						if got == n {
+							break waitByz
+						}
+					case <-closed:
+						refused = true
+						break waitByz
+					case <-dl:
+						conn.Close()
+						cs.Impl = append(cs.Impl, "hang")
+						cs.Fail("hang", "neither the marker nor the end of the connection within 10 s after "+op)
+						return
+					}
+				}
+				conn.Close()
+				if refused {
+					cs.Impl = append(cs.Impl, "refused")
+					if byzA == z {
+						cs.Fail("honest-connection-refused", fmt.Sprintf("a peer with the key of member %d announcing that member's identity was refused", z))
+					}
+					continue
+				}
+				if byzA != z {
+					cs.Fail("unauthenticated-identity-stamped", fmt.Sprintf("a peer that proved the key of member %d and announced the identity of member %d was not refused", z, byzA))
+				}
+			} else if err := sendVia(z, mk(tk[4], fix.Payload(ty, v))); err != nil {
 				cs.Impl = append(cs.Impl, "send-failed")
 				cs.Fail("send-failed", err.Error())
 				return
@@ -261,6 +325,30 @@ func c02tlsnetGen(c *h.Ctx, yield func(*h.Case)) {
 					cs.Ops = append(cs.Ops, fmt.Sprintf("c02 tlsnet %d %d %d %d", i, ty, 10+i, val))
 				}
 				c.Count("class=tlsnet")
+				yield(cs)
+			}
+		}
+	}
+	// a byzantine TLS peer drives a handler: it proves the key of member k, announces member a, names a node
+	for ty := 1; ty <= 4; ty++ {
+		for k := 1; k <= 3; k++ {
+			for a := 1; a <= 3; a++ {
+				if c.Rng.Intn(c.Pick(3, 1)) != 0 {
+					continue
+				}
+				cs := &h.Case{Class: fmt.Sprintf("tlsnet byz ty=%d", ty)}
+				cs.Ops = append(cs.Ops, "c02 cfg 10:0,11:1,12:2 - 2 1,2")
+				val++
+				claimed := 10 + a // the node of the member it announces …
+				if c.Rng.Intn(3) == 0 {
+					claimed = 10 + k // … or of the member whose key it holds
+				}
+				cs.Ops = append(cs.Ops, fmt.Sprintf("c02 tlsbyz %d %d %d %d %d", k, a, ty, claimed, val))
+				for i := 1; i <= 2; i++ {
+					val++
+					cs.Ops = append(cs.Ops, fmt.Sprintf("c02 tlsnet %d %d %d %d", i, ty, 10+i, val))
+				}
+				c.Count("class=tlsnet byz")
 				yield(cs)
 			}
 		}
